@@ -317,9 +317,10 @@ def run(prop, tier, seed, replay=None):
             jobs.append((jname, upath, u, [x for h, h2, _ in pairs for x in (h, h2)]))
     pair_cmp = 0
 
-    for uname, upath, u, hs in jobs:
-        if not hs:
-            continue
+    def run_job(job):
+        """replay one universe's histories into the real store and have TLC judge the traces (jobs are independent:
+        own universe, own trace files; three of them run at a time)"""
+        uname, upath, u, hs = job
         if uname == "exp":
             uname = "exp%d" % int(time.time())
             upath = S.universe_path(uname)
@@ -335,6 +336,16 @@ def run(prop, tier, seed, replay=None):
         t1 = time.time()
         bad, lines = S.judge(prop, upath, tfiles, fpath)
         t2 = time.time()
+        return uname, upath, u, hs, fpath, tfiles, bad, lines, t0, t1, t2
+
+    import concurrent.futures as _cf
+    live = [j for j in jobs if j[3]]
+    # jobs whose names are not unique (none today) would share trace file names: keep them apart
+    assert len({j[0] for j in live}) == len(live)
+    with _cf.ThreadPoolExecutor(max_workers=3) as _ex:
+        results = list(_ex.map(run_job, live))
+
+    for uname, upath, u, hs, fpath, tfiles, bad, lines, t0, t1, t2 in results:
         total_lines += lines
         sc = S.scan_traces(tfiles, nontrivial_pred(prop, u))
         for k in ("calls", "histories", "distinct", "distinct_nontrivial"):
